@@ -1,10 +1,11 @@
 SPECIFICATION Spec
-CONSTANTS MaxIdx = 3
+CONSTANTS MaxIdx = 2
           FileSize = 3
           MaxBatch = 2
           MaxReaders = 2
           MaxRF = 1
           Depth = 99
+          DupMode = "any"
           QMode = "all"
 VIEW core
 INVARIANT TypeOK
